@@ -28,6 +28,7 @@ pub struct EnvV {
     pub le: Seq<char>,
     pub work_dir: PathV,
     pub input_path: Seq<char>,
+    pub shell: Shell,
 }
 
 pub enum ExecRes {
@@ -36,8 +37,88 @@ pub enum ExecRes {
     Out(Seq<char>),
 }
 
-/// result of executing a complete directive: (result, tag state after, pp mode after)
-pub uninterp spec fn exec_spec(d: DView, tags: TagV, pp: PpModeV, env: EnvV) -> (ExecRes, TagV, PpModeV);
+// ---- the world as directive execution sees it while ONE file is processed.  A3/A4: the file system (apart from
+// txtpp's own writes) and the commands do not change during that time, so each observation is a FUNCTION of what
+// is asked.  The functions are uninterpreted: the semantics below is stated relative to them.  What links them to
+// the real calls is stated where the calls are specified (unit U13: try_resolve, read_to_string, share_base,
+// get_txtpp_file, Shell::run, write_temp_file).
+/// the path names a txtpp source: `x.txtpp` or `x.txtpp.ext` (TxtppPath::is_txtpp_file; defined and proved in unit U9)
+pub uninterp spec fn is_txtpp_v(p: PathV) -> bool;
+/// the `.txtpp` source from which the file `p` is generated, if there is one (TxtppPath::get_txtpp_file)
+pub uninterp spec fn w_get_txtpp(p: PathV) -> Option<PathV>;
+/// the canonical form of a dependency path (AbsPath::share_base); None: it cannot be resolved
+pub uninterp spec fn w_share(base: PathV, p: PathV) -> Option<PathV>;
+/// the file an include argument designates (AbsPath::try_resolve, no creation); None: it cannot be resolved
+pub uninterp spec fn w_resolve(base: PathV, rel: PathV) -> Option<PathV>;
+/// (w_read_text(p): the text of a file, fs::read_to_string - prelude/std_fs.rs)
+/// (w_run(sh, command, wd, file): the standard output of a command, None if it failed - spec/shell_world.rs)
+/// whether the temp target `target` (relative to `wd`) can be brought to hold `content`
+pub uninterp spec fn w_temp(wd: PathV, target: PathV, content: Seq<u8>) -> bool;
+
+/// dependencies recorded so far
+pub open spec fn ppv_deps(p: PpModeV) -> Seq<PathV> {
+    match p {
+        PpModeV::Collect(ds) => ds,
+        _ => Seq::<PathV>::empty(),
+    }
+}
+
+/// README "Tag Directive": a tag cannot be created while another waits for its content, nor when its name equals,
+/// prefixes or is prefixed by a stored tag
+pub open spec fn tag_create_rejected(tags: TagV, name: Seq<char>) -> bool {
+    tags.listening is Some || exists|k: Seq<char>| tags.stored.contains_key(k) && prefix_related(k, name)
+}
+
+/// result of executing a complete directive: (result, tag state after, pp mode after).
+/// README "Directive Overview / Execution" and each directive's BEHAVIOR paragraph.
+#[verifier::opaque]
+pub open spec fn exec_spec(d: DView, tags: TagV, pp: PpModeV, env: EnvV) -> (ExecRes, TagV, PpModeV) {
+    if env.mode is Clean {
+        // clean executes nothing (only a temp target is removed) and ignores every error
+        (ExecRes::NoOutput, tags, pp)
+    } else if !(pp is Execute) && (d.dtype is Include || d.dtype is After)
+        && w_get_txtpp(join_v(env.work_dir, path_of_chars(d.args[0]))) is Some {
+        // first pass: the target is generated from a .txtpp source: record the dependency, execute nothing
+        match w_share(env.work_dir, w_get_txtpp(join_v(env.work_dir, path_of_chars(d.args[0])))->Some_0) {
+            Some(p) => (ExecRes::NoOutput, tags, PpModeV::Collect(ppv_deps(pp).push(p))),
+            None => (ExecRes::Err, tags, pp),
+        }
+    } else if pp is Collect {
+        // dependencies are being collected: nothing is executed any more in this pass
+        (ExecRes::NoOutput, tags, pp)
+    } else {
+        match d.dtype {
+            DType::Empty | DType::After => (ExecRes::NoOutput, tags, pp),
+            DType::Run => match w_run(env.shell, join_with(d.args, seq![' ']), env.work_dir, env.input_path) {
+                Some(o) => (ExecRes::Out(o), tags, pp),
+                None => (ExecRes::Err, tags, pp),
+            },
+            DType::Include => match w_resolve(env.work_dir, path_of_chars(d.args[0])) {
+                Some(p) => match w_read_text(p) {
+                    Some(t) => (ExecRes::Out(t), tags, pp),
+                    None => (ExecRes::Err, tags, pp),
+                },
+                None => (ExecRes::Err, tags, pp),
+            },
+            DType::Temp => {
+                if !is_txtpp_v(path_of_chars(d.args[0]))
+                    && w_temp(env.work_dir, path_of_chars(d.args[0]), vstd::utf8::encode_utf8(spec_fmt_out(Seq::<char>::empty(), d.args.skip(1), false, env.le))) {
+                    (ExecRes::NoOutput, tags, pp)
+                } else {
+                    (ExecRes::Err, tags, pp)
+                }
+            },
+            DType::Tag => {
+                if tag_create_rejected(tags, d.args[0]) {
+                    (ExecRes::Err, tags, pp)
+                } else {
+                    (ExecRes::NoOutput, TagV { listening: Some(d.args[0]), stored: tags.stored }, pp)
+                }
+            },
+            DType::Write => (ExecRes::Out(join_with(d.args, seq!['\n'])), tags, pp),
+        }
+    }
+}
 
 /// tag substitution on an ordinary line: (text, remaining stored tags)   [defined in spec/tags.rs]
 pub uninterp spec fn spec_inject(stored: Map<Seq<char>, Seq<char>>, line: Seq<char>, le: Seq<char>) -> (Seq<char>, Map<Seq<char>, Seq<char>>);
